@@ -152,11 +152,17 @@ def make_check(prop, plans_of, rule, nontrivial, level="model_checking", assumpt
             settle(rep, prop, fails, events, c)
             if post:
                 post(rep, pl, events)
-            picks = [e for e in events if nontrivial(e)]
-            for e in picks[:2]:
-                rep.sample(e)
+            npick = 0
+            for e in events:
+                if nontrivial(e):
+                    rep.sample(e)
+                    npick += 1
+                    if npick >= 2:
+                        break
             rep.cov.setdefault("plans", []).append({"plan": pl.name, "runs": len(runs), "events": len(events), "stores": list(pl.stores),
                                                     "embeddings": list(pl.embeds), "http": pl.http})
+            if hasattr(events, "close"):
+                events.close()
             os.remove(trace)
         finish_counts(rep)
         if post_all:
@@ -216,20 +222,29 @@ def judge_chunks(work, rep, c, trace, events, chunk=120000):
     if len(events) <= chunk:
         return judge(work, rep, c, trace)
     fails = []
-    lines = open(trace).read().splitlines(True)
-    start, part = 0, 0
-    while start < len(lines):
-        end = min(len(lines), start + chunk)
-        while end < len(lines) and not lines[end].startswith('{"e":"reset"'):
-            end += 1
-        p = work.path("chunk%d.ndjson" % part)
-        open(p, "w").writelines(lines[start:end])
-        for f in judge(work, rep, c, p, name="judge%d" % part):
-            f[3] += start
-            fails.append(f)
+    start, part, n = 0, 0, 0
+    out, p = None, None
+    with open(trace) as f:
+        for line in f:
+            if out is None or (n - start >= chunk and line.startswith('{"e":"reset"')):
+                if out is not None:
+                    out.close()
+                    for fl in judge(work, rep, c, p, name="judge%d" % part):
+                        fl[3] += start
+                        fails.append(fl)
+                    os.remove(p)
+                    part += 1
+                    start = n
+                p = work.path("chunk%d.ndjson" % part)
+                out = open(p, "w")
+            out.write(line)
+            n += 1
+    if out is not None:
+        out.close()
+        for fl in judge(work, rep, c, p, name="judge%d" % part):
+            fl[3] += start
+            fails.append(fl)
         os.remove(p)
-        start = end
-        part += 1
     return fails
 
 
@@ -447,8 +462,11 @@ def c16_plans(tier):
     if tier == "quick":
         return [Plan("MC_Witness(hist)", H(tier, BadKinds={"random", "flip"}), nwalks=150, depth=20, reads=True, http=True, stores=Q_ST, embeds=("id",), want=want_accept),
                 Plan("MC_Witness2(shared key)", W2(tier), keyof=KEYOF, edges=False, nwalks=100, depth=20, reads=True, http=True, stores=("inmem", "sqlfile"), embeds=("id",),
-                     extra_runs=odd_runs, want=want_accept)]
-    return [Plan("MC_Witness(hist)", H(tier), nwalks=1500, depth=40, reads=True, http=True, stores=T_ST, embeds=("id", "mixed"), want=want_accept),
+                     extra_runs=odd_runs, want=want_accept),
+                # note shapes up to the signature-line limit: a first submission that is refused AFTER the storage was opened must leave no entry
+                Plan("MC_Witness(pad)", PAD(tier, 2, Stales={0}, Exts={0}), nwalks=40, depth=8, reads=True, http=True, stores=("inmem", "sqlfile"), embeds=("id",), want=want_accept)]
+    return [Plan("MC_Witness(pad)", PAD(tier, 2), nwalks=200, depth=10, reads=True, http=True, stores=T_ST, embeds=("id",), want=want_accept),
+            Plan("MC_Witness(hist)", H(tier), nwalks=1500, depth=40, reads=True, http=True, stores=T_ST, embeds=("id", "mixed"), want=want_accept),
             Plan("MC_Witness2(3 logs)", W2(tier), keyof=KEYOF, edges=True, nwalks=1000, depth=30, reads=True, http=True, stores=T_ST, embeds=("id",),
                  extra_runs=odd_runs, want=want_accept)]
 
